@@ -1,5 +1,5 @@
 import NomtModel.Store.WalkerSimTop
-import NomtModel.Core.TermHasher
+import NomtModel.Store.WalkerExample
 /-!
 # C02 — the page walker (`nomt/src/merkle/page_walker.rs`)
 
@@ -126,70 +126,10 @@ theorem T2_build_trie_visitor {S : List (Key × VH)} (hk : KeysOK S) (t : Path) 
       some (if sub S t = [] then [.terminator] else treeEv H t.length (256 - t.length) 0 (sub S t) none) :=
   buildEvents_sub H hk t ht
 
-/-! ## non-vacuity: a concrete walk (the free term hasher `TH` is `Sound`) -/
+/-! ## non-vacuity: a concrete walk (`Store/WalkerExample.lean`; the free term hasher `TH` is `Sound`) -/
 
 section Example
-
-private def k0 : Key := List.replicate 256 false
-private def k1 : Key := true :: List.replicate 255 false
-private def exS' : List (Key × Nat) := [(k0, 1), (k1, 2)]
-private def exSteps : List (Step Nat) := [([], some exS')]
-private def exPs : PageSet T := { get := fun _ => none, fresh := fun _ => List.replicate 126 T.term }
-
-private theorem exBit0 : (k0.getD 0 false == false) = true ∧ (k1.getD 0 false == true) = true ∧
-    (k0.getD 0 false == true) = false ∧ (k1.getD 0 false == false) = false := by decide
-
-private theorem exSide0 : side 0 false exS' = [(k0, 1)] := by
-  simp only [side, exS', List.filter, exBit0.1, exBit0.2.2.2]
-
-private theorem exSide1 : side 0 true exS' = [(k1, 2)] := by
-  simp only [side, exS', List.filter, exBit0.2.1, exBit0.2.2.1]
-
-private theorem exKeys' : KeysOK exS' := by
-  constructor
-  · show Canon 256 0 [(k0, 1), (k1, 2)]
-    have h0 : side 0 false [(k0, 1), (k1, 2)] = [(k0, 1)] := exSide0
-    have h1 : side 0 true [(k0, 1), (k1, 2)] = [(k1, 2)] := exSide1
-    refine ⟨by rw [h0, h1]; rfl, by rw [h0]; trivial, by rw [h1]; trivial⟩
-  · intro kv hkv
-    simp only [exS', List.mem_cons, List.mem_nil_iff, or_false] at hkv
-    rcases hkv with h | h <;> rw [h]
-    · exact List.length_replicate ..
-    · show (true :: List.replicate 255 false).length = 256
-      rw [List.length_cons, List.length_replicate]
-
-private theorem exKeys : KeysOK ([] : List (Key × Nat)) := ⟨trivial, fun _ h => by cases h⟩
-
-private theorem exScript : ScriptOK ([] : List (Key × Nat)) exS' exSteps := by
-  refine ⟨by simp [exSteps], ?_, ?_, ?_, ?_⟩
-  · intro s hs; simp only [exSteps, List.mem_singleton] at hs; rw [hs]; simp
-  · intro s hs; simp only [exSteps, List.mem_singleton] at hs; rw [hs]
-    exact ⟨by simp [sub, restrict], Or.inl rfl⟩
-  · intro s hs ops hop
-    simp only [exSteps, List.mem_singleton] at hs
-    rw [hs] at hop ⊢
-    simp only [Option.some.injEq] at hop
-    rw [← hop]; rfl
-  · intro q _ h
-    have := h ([], some exS') (by simp [exSteps]) rfl
-    rcases this with ⟨p, r, s, e, _⟩ | ⟨p, r, s, _, e⟩ <;> simp at e
-
-private theorem exPSOK : PSOK exPs exSteps := by
-  refine ⟨fun _ => by simp [exPs], ?_⟩
-  intro s hs hne
-  simp only [exSteps, List.mem_singleton] at hs
-  rw [hs] at hne; exact absurd rfl hne
-
-private theorem exRep : Represents TH exPs T.term ([] : List (Key × Nat)) := by
-  intro q _ _ hm
-  rcases hm with h | h
-  · subst h; rfl
-  · simp [sub, restrict] at h
-    have : ∀ (p : Path) (d : Nat), restrict d p ([] : List (Key × Nat)) = [] := by
-      intro p; induction p with
-      | nil => intro d; rfl
-      | cons b bs ih => intro d; simp [restrict, side, ih]
-    rw [this] at h; simp at h
+open Nomt.Walker.Ex
 
 /-- the hypotheses of `T2_walker_root_partial` / `T2_walker_pages_partial` are met: building a two-key trie from the
 empty one with a single `advance_and_replace` at the root position -/
